@@ -35,7 +35,7 @@ NOT_DECIDED = {
             "real code as bounded stand-ins (listed under bounded_standins); pcDelta_grouped_cross is covered for the scalar bins=0 form only (the "
             "square form is undefined for vector results, see DESIGN section 5/C13)",
             "stdpc_joint is an uninterpreted statistic here (its body is not verified)"],
-    "C19": ["NOT under contract (no obligation covers them): labels_to_colors_tableau, density_scatter's continuous (histogram-interpolation) mode, seqlogos for sequences of unequal length (external aligner) and seqlogos_vj, "
+    "C19": ["NOT under contract (no obligation covers them): density_scatter's continuous (histogram-interpolation) mode, seqlogos for sequences of unequal length (external aligner) and seqlogos_vj, "
             "similarity_clustermap / ClusterGridSplit -- their statements are about what a rendered figure shows or about colour look-up tables built "
             "with seaborn / matplotlib objects; only C20's frame obligations (no argument / default mutated) cover them",
             "labels_to_colors_hls: that seaborn.hls_palette(n) returns n pairwise different non-black colours is an assumed contract of seaborn",
